@@ -12,8 +12,22 @@ ASSUMPTIONS = bc.ASSUMPTIONS_COMMON + [
 TRUSTED = bc.TRUSTED_COMMON
 
 
+def compose_cases(rng, n):
+    out = []
+    for _ in range(n):
+        kind = rng.choice(["trace", "logs", "metrics"])
+        nc = rng.choice([0, 1, 1, 2, 3, 4])
+        ch = []
+        for _ in range(nc):
+            m = [65535, 65535, 65535, 0, rng.below(65536), 65535 ^ (1 << rng.below(4))]
+            ch.append("c %d %d" % (rng.choice(m), rng.choice(m)))
+        ops = " ".join(rng.choice(["f", "f", "h"]) for _ in range(rng.below(6)))
+        out.append("COMPOSE %s | %s | o %s" % (kind, " | ".join(ch), ops) if ch else "COMPOSE %s | o %s" % (kind, ops))
+    return out
+
+
 def gen(rng, tier):
-    return bc.gen_with(rng, tier, 4, 4, 2)
+    return bc.gen_with(rng, tier, 4, 4, 2) + compose_cases(rng, 300 if tier == "quick" else 5000)
 
 
 LEVEL_TEXT = ("Theorems in coq/Properties_C02.v about the acceptor LTS of the batch processors: a ForceFlush that returns true implies every record queued "
